@@ -152,6 +152,15 @@ CLAIMED = {
    note=TB + "Which commits/blobs a revision argument selects is judged by the scenario oracle (plumbing), not modelled in Lean; the attribute reading of fsck --pointers is only exercised with root-level .gitattributes except for the D21 variant (known finding); lfs.fetchexclude excuses objects only, tracked paths holding raw content are reported regardless (the property's literal reading, which the code follows). git's clean filter may add objects while fsck runs diff-index (racy entries): additions are tolerated, removals and modifications are not.",
    technique="Lean 4 proof (list-level characterisation of the fsck outcome by case analysis) + scenario correspondence with a plumbing/check-attr oracle and .git/lfs snapshots",
    ref="§5 C13"),
+ "C12": dict(
+   text="Lean theorems over the model of githistory.Rewriter (commits in topological order, flat trees, blob function, (path, blob)-keyed entry cache, commit cache): for ANY cache state reachable from earlier commits and ANY tree the memoised rewrite equals the entry-wise image under the blob function "
+        "(rewriteTree_spec, cache invariant preserved), path and mode of every entry are the original's also on a cache hit recorded under another mode, unselected entries and symlinks are untouched, content is preserved under `resolve` for every content-preserving blob function (import: C01), "
+        "every rewritten commit keeps its header and gets the images of its parents (original id across a partial-migration boundary), the number of commits is preserved, export o import is the identity on entries for inverse blob functions; a blob function that depends on the commit (--fixup) is shown NOT memoisable by a decided counterexample (D12). "
+        "Scenarios with the real binary over histories with merges, tags, symlinks, executables, mode-only changes, renames, nested .gitattributes, pre-tracked and empty files x selections (--include/--exclude, --above, --everything, --no-rewrite): graph shape, headers, per-path mode, content after resolving pointers, representation changed exactly on selected convertible paths, "
+        "refs and annotated tags at the images, export after import blob for blob; the rewritten trees are compared with the model.",
+   note=TB + "Sub-tree caching is abstracted to its leaves (sound for blob functions pure in (path, blob)); gitobj's object codec and rev-list ordering are trusted; --fixup and --include-ref/--exclude-ref are not generated by the scenario campaign (D12 is carried by the Lean counterexample only); the working tree after migrate is not compared (documented: repopulate with git lfs checkout). D35 (tag message loses its final newline) is a known finding.",
+   technique="Lean 4 proof (memoisation invariant by induction over trees and histories) + scenario correspondence on real repositories (plumbing comparison of old and new histories) + differential check of the rewritten trees against the model",
+   ref="§5 C12"),
 }
 PENDING_REASON = "check not built yet in this session (build in progress, see DESIGN.md §10); not claimed until its theorems and correspondence run"
 ALL = ["C%02d" % i for i in range(1, 21)]
